@@ -234,7 +234,28 @@ def rules(rep):
     rep.check(ok, "Q5-match", "searchopt: slot in use, registered name is a prefix (strncmp over its length), next character NUL or '='", so.loc, "",
               function=so.name, construct="searchopt")
     lp = any(op == "<" and sh(L) == "i" and sh(R) == "nopts" for b in so.blocks.values() if b.cond is not None for op, L, R, _, _ in cond_atoms(b.cond, True))
-    rep.check(lp, "Q5-match", "searchopt scans every slot below nopts", so.loc, "", function=so.name, construct="searchopt-loop")
+    # ... and gives up on a slot only to go on to the next one: the loop is left through its own test (every slot looked at) or
+    # through the `return (i)` of a full match, nothing else (a slot whose name is a proper prefix of the option sought is not
+    # the end of the search: a later slot may hold the longer name)
+    heads = [b for b in so.blocks.values() if b.cond is not None and any(op == "<" and sh(L) == "i" and sh(R) == "nopts" for op, L, R, _, _ in cond_atoms(b.cond, True))]
+    early = []
+    if len(heads) == 1:
+        hb = heads[0]
+        loop = set(x for x in so.reach_from(hb.id) if hb.id in so.reach_from(x)) | {hb.id}
+        for bid in loop:
+            blk = so.blocks[bid]
+            for si, sb in enumerate(blk.succs):
+                if sb is None or sb in loop:
+                    continue
+                if bid == hb.id and si == 1:
+                    continue                      # the loop's own test failing
+                # otherwise the edge must lead to the hit return and nowhere else
+                vals, _ = so.returns_from(sb)
+                if not (vals and all(v is not None and sh(v) == "i" for v in vals)):
+                    early.append(blk)
+    rep.check(lp and len(heads) == 1 and not early, "Q5-match", "searchopt scans every slot below nopts", so.loc,
+              ("the scan is abandoned at %s without a match" % (early[0].elems[-1].where if early and early[0].elems else "?")) if early else "",
+              function=so.name, construct="searchopt-loop")
 
     # ---- Q6: argument sources ------------------------------------------------------------------
     HAS = ("!=", "opts[opt_found].hasarg", "0")
